@@ -465,7 +465,7 @@ def run(tier, seed, proof):
     groups = collections.defaultdict(dict)
     cmp_mode = {c[0]: c[3] for c in cases}
     with concurrent.futures.ThreadPoolExecutor(max_workers=common.NCPU) as ex:
-        for r in ex.map(lambda j: run_one(j[0][0], j[0][1], j[0][2], j[1][0], j[1][1]), jobs):
+        for r in common.bounded_map(ex, lambda j: run_one(j[0][0], j[0][1], j[0][2], j[1][0], j[1][1]), jobs):
             res.evaluations += 1
             ends[r.end] += 1
             fams[f"{r.fam}/{r.transport}"] += 1
@@ -541,7 +541,7 @@ def search(tier, seed, proof):
     cases = list(gen_cases("quick", seed, search=True))
     jobs = [(c, tr) for c in cases for tr in TRANSPORTS]
     with concurrent.futures.ThreadPoolExecutor(max_workers=common.NCPU) as ex:
-        for r in ex.map(lambda j: run_one(j[0][0], j[0][1], j[0][2], j[1][0], j[1][1], with_model=False), jobs):
+        for r in common.bounded_map(ex, lambda j: run_one(j[0][0], j[0][1], j[0][2], j[1][0], j[1][1], with_model=False), jobs):
             res.evaluations += 1
             if r.verdict and not res.impl_violations:
                 kind, msg = r.verdict
